@@ -63,6 +63,9 @@ def main(tier):
         if form == "include":
             used |= {"INCLUDE"}
         bans = [sorted(tx["ban"]), [singles[(n + seed()) % 30]]]
+        if n % 5 == 0:
+            # every kind the project uses, banned alone
+            bans += [[k] for k in sorted(used) if [k] not in bans and k != "JSIGHT"]
         if form == "macro_unused":
             bans.append(["PASTE"])             # banning what does not occur changes nothing, whatever else is defined
         ff = {"main.jst": b64(text)}
